@@ -126,6 +126,7 @@ pub struct World {
     pub cur_bufs: Vec<(usize, usize)>,
     /// output buffers of the pop in progress (driver-owned queues)
     pub cur_outs: Vec<(usize, usize)>,
+    pub cur_tok: u16,
     pub bad: usize,
     pub dma_leaked_host: Vec<(*mut u8, usize)>,
     pub mmio_map: Vec<(u64, usize, usize)>, // (pa, size, window id) for mmio_phys_to_virt
@@ -148,6 +149,7 @@ impl World {
             external_calls: false,
             cur_bufs: Vec::new(),
             cur_outs: Vec::new(),
+            cur_tok: 0,
             bad: 0,
             dma_leaked_host: Vec::new(),
             mmio_map: Vec::new(),
